@@ -215,7 +215,7 @@ func (c *Ctx) rwFreshPerRequest(w *Wrapper) {
 		}
 		var missing []string
 		for i := 0; i < st.NumFields(); i++ {
-			if !set[st.Field(i).Name()] {
+			if !set[canonFieldName(w.Named, st.Field(i).Name())] {
 				missing = append(missing, st.Field(i).Name())
 			}
 		}
@@ -333,7 +333,7 @@ func (w *Wrapper) boolFields() []string {
 	var out []string
 	for i := 0; i < st.NumFields(); i++ {
 		if b, ok := st.Field(i).Type().Underlying().(*types.Basic); ok && b.Kind() == types.Bool {
-			out = append(out, st.Field(i).Name())
+			out = append(out, canonFieldName(w.Named, st.Field(i).Name()))
 		}
 	}
 	return out
